@@ -112,4 +112,5 @@ class QRES(Model):
         self.sequential = nn.Sequential(*layers)
 
     def forward(self, points):
+        points = self._fix_points_order(points)
         return Points(self.sequential(points), self.output_space)
